@@ -68,7 +68,10 @@ Step(ev, s) ==
                           ELSE IF ev.b = Stream(x.got, Len(ev.b)) /\ x.got + Len(ev.b) <= x.wire
                           THEN Upd(s, c, [x EXCEPT !.got = @ + Len(ev.b)]) ELSE {}
     \* end-of-history completeness: with an empty backlog on an intact connection the peer has received everything
-    [] ev.op = "check" -> IF ev.sb = x.acc - x.wire /\ ((ev.sb = 0 /\ ~x.broken /\ ev.drained) => x.got = x.acc) THEN { s } ELSE {}
+    \* (the harness has just resumed the client and let the loop run with everything the kernel reports and sends
+    \* that take all: a backlog that is still there was never flushed - its write readiness was not dispatched)
+    [] ev.op = "check" -> IF x.broken \/ ~x.alive THEN { s }
+                          ELSE IF ev.sb = x.acc - x.wire /\ (ev.drained => (ev.sb = 0 /\ x.got = x.acc)) THEN { s } ELSE {}
     [] OTHER -> { s }        \* run / poll / interrupt / runend / timers: not this property's business
 
 Inv(s) == \A c \in Cs : /\ s[c].got <= s[c].wire /\ s[c].wire <= s[c].acc + s[c].inw /\ s[c].pgot <= s[c].pin
